@@ -22,6 +22,12 @@ fn arg(args: &[String], name: &str) -> Option<String> {
 }
 
 fn main() {
+    // a large stack: a call that recurses without bound is stopped by the draw budget (srng::budget)
+    // well before the stack ends, so it becomes a recorded panic instead of a dead driver
+    std::thread::Builder::new().stack_size(1 << 30).spawn(real_main).unwrap().join().unwrap();
+}
+
+fn real_main() {
     let args: Vec<String> = std::env::args().collect();
     let seed: u64 = arg(&args, "--seed").and_then(|s| s.parse().ok()).unwrap_or(1);
     let scenarios: u64 = arg(&args, "--scenarios")
@@ -84,7 +90,9 @@ fn main() {
                     gaps: Gaps::default(),
                 });
             }
+            verif_harness::srng::budget(c.events.len(), machines.len());
             let o = run.call(&c.events, c.t);
+            verif_harness::srng::budget(c.events.len(), machines.len());
             let o2 = twin.call(&c.events, c.t);
             n_calls += 1;
             n_trans += o.transitions;
@@ -92,6 +100,7 @@ fn main() {
                 nondet = true;
             }
             if let Some(cl) = clone.as_mut() {
+                verif_harness::srng::budget(c.events.len(), machines.len());
                 let o3 = cl.call(&c.events, c.t);
                 if o.lines != o3.lines {
                     nondet = true;
